@@ -258,4 +258,112 @@ class Robust(Sub):
         return Result(viol, nt, labels)
 
 
-SUBCHECKS = [Robust()]
+class AsgiStack(Sub):
+    """the same grammar through the whole falcon ASGI stack (create_app, NostrAPI.on_websocket, JSON handler)"""
+
+    name = "asgi-stack"
+    examples = {"quick": 240, "thorough": 1920}
+    shards = {"quick": 8, "thorough": 16}
+    rule = ("frames sent through falcon.testing.ASGIConductor.simulate_ws to create_app(storage); same probes; "
+            "non-trivial as for 'robust'")
+
+    def strategy(self, tier):
+        return st.tuples(st.sampled_from(["kv", "sql"]), st.lists(st.integers(0, 10**6), min_size=2, max_size=8).flatmap(
+            lambda seeds: st.tuples(*[st_frame(i) for i in range(len(seeds))]))).map(lambda t: [t[0], list(t[1])])
+
+    def run_case(self, case):
+        return H.run(self._run, case)
+
+    async def _drain(self, ws, spins=40):
+        loop = asyncio.get_running_loop()
+        quiet = 0
+        n = len(ws._collected_server_events)
+        for _ in range(20000):
+            await asyncio.sleep(0)
+            live = [h for h in loop._scheduled if not h._cancelled and h._when - loop.time() < 1e9]
+            if live:
+                loop.jump_to_next_timer()
+                quiet = 0
+                continue
+            if ws._collected_client_events or len(ws._collected_server_events) != n:
+                n = len(ws._collected_server_events)
+                quiet = 0
+                continue
+            me = asyncio.current_task()
+            busy = False
+            for t in asyncio.all_tasks(loop):
+                if t is me or t.done():
+                    continue
+                ch = H._chain(t)
+                names = [n for n, _ in ch]
+                if ch and names[-1] not in ("sleep", "__sleep0", "get", "wait", "_emit", "_receive", "_run") and (
+                        "receive_text" not in names):
+                    busy = True  # e.g. waiting for the database thread
+            if busy:
+                import time as _t
+
+                _t.sleep(0.0003)
+                quiet = 0
+                continue
+            quiet += 1
+            if quiet >= spins:
+                return
+        raise H.HarnessError("asgi drain: no quiescence")
+
+    async def _run(self, case):
+        import falcon.testing
+        from nostr_relay import web
+
+        backend, frames = case
+        viol = []
+        nt = False
+        async with H.Rig(backend, config={"message_timeout": 10**14}, file_db=True if backend == "sql" else None) as rig:
+            await rig.add(KNOWN)
+            app = web.create_app(storage=rig.storage)
+            cond = falcon.testing.ASGIConductor(app)
+            closed_by_relay = False
+            try:
+                async with cond.simulate_ws("/") as ws:
+                    for raw in frames:
+                        if gate(raw):
+                            nt = True
+                        if ws.closed:
+                            break
+                        await ws.send_text(raw)
+                        await self._drain(ws)
+                    if ws.closed:
+                        closed_by_relay = True
+                    else:
+                        ws._collected_server_events.clear()
+                        await ws.send_text(json.dumps(["REQ", "probe", {"ids": [KNOWN["id"]]}]))
+                        await self._drain(ws)
+                        got = []
+                        for e in list(ws._collected_server_events):
+                            if e.get("text"):
+                                try:
+                                    got.append(json.loads(e["text"]))
+                                except ValueError:
+                                    viol.append(V("frame-not-json", "every frame parses as JSON", raw=e["text"][:200]))
+                        if not ws.closed:
+                            ok = any(f[0] == "EVENT" and f[1] == "probe" for f in got) and any(
+                                f[0] == "EOSE" and f[1] == "probe" for f in got)
+                            if not ok and not any(f[0] == "NOTICE" for f in got):
+                                viol.append(V("asgi-probe-req-not-answered", "a kept-open connection still answers a REQ",
+                                              frames=got[:4]))
+                        if not ws.closed:
+                            await ws.close()
+            except falcon.WebSocketDisconnected:
+                closed_by_relay = True
+            except H.HarnessError:
+                raise
+            except Exception as e:
+                viol.append(V("asgi-app-raised", "no exception escapes the application", exc=repr(e)[:300]))
+            await rig.settle()
+            if rig.stuck:
+                viol.append(V("stuck-on-lock", "tasks finish", waiting=rig.stuck))
+            if any(len(v) for v in rig.storage.clients.values()):
+                viol.append(V("subscriptions-leaked", "when a connection ends all its subscriptions are dropped"))
+        return Result(viol, nt, ["backend:" + backend] + (["closed-by-relay"] if closed_by_relay else []))
+
+
+SUBCHECKS = [Robust(), AsgiStack()]
